@@ -30,6 +30,10 @@ func printConsts() {
 	for k, v := range immutable.VerifPreAggConsts() {
 		c[k] = v
 	}
+	magic, fc := immutable.VerifFileConsts()
+	for k, v := range fc {
+		c[k] = v
+	}
 	c["s8_max"] = simple8b.MaxValue
 	c["wal_head"] = engine.WalRecordHeadSize
 	c["wal_unknown"] = engine.WriteWalUnKnownType
@@ -37,7 +41,15 @@ func printConsts() {
 	c["wal_arrow"] = engine.WriteWalArrowFlight
 	c["wal_end"] = engine.WriteWalEnd
 	c["seg_rows_ts"] = util.DefaultMaxRowsPerSegment4TsStore
-	out := map[string]any{"consts": c, "s8": simple8b.VerifSelectorTable(), "scales": codec.VerifScales()}
+	out := map[string]any{"consts": c, "s8": simple8b.VerifSelectorTable(), "scales": codec.VerifScales(), "lists": map[string][]int{"table_magic": ints(magic)}}
 	b, _ := json.Marshal(out)
 	fmt.Println(string(b))
+}
+
+func ints(b []byte) []int {
+	out := make([]int, len(b))
+	for i, x := range b {
+		out[i] = int(x)
+	}
+	return out
 }
